@@ -120,7 +120,11 @@ impl AllowlistRule {
         }
 
         // Check patterns (OR logic with extensions and files)
-        if self.allow_patterns.is_match(file_name) || self.allow_patterns.is_match(file_path) {
+        if self.allow_patterns.is_match(file_name)
+            || self
+                .allow_patterns
+                .is_match(normalize_for_matching(file_path))
+        {
             return true;
         }
 
